@@ -199,4 +199,12 @@ def rule_awaited_before_release(ctx: Ctx):
     c05.rule_wrapper(ctx, rule="C06.atomic-async")
 
 
-RULES = [rule_order, rule_mutex, rule_nonblock, rule_recheck, rule_atomic_async, rule_prims, rule_no_sticky_gate, rule_awaited_before_release]
+def rule_lock_released_on_every_exit(ctx: Ctx):
+    """C06.mutex: the processing lock is released on every way out of the loop, also when a sender is cancelled or interrupted
+    inside a callback (BaseException): a lock left held makes every later sender's event queue up with nobody to run it."""
+    from . import c04
+
+    c04.rule_release(ctx, rule="C06.mutex")
+
+
+RULES = [rule_order, rule_mutex, rule_nonblock, rule_recheck, rule_atomic_async, rule_prims, rule_no_sticky_gate, rule_awaited_before_release, rule_lock_released_on_every_exit]
